@@ -100,6 +100,12 @@ def run(chk):
     core3i = [f for f in G.core_plain(['v0', 'v2']) if S.depth(f) <= 3 and S.quant_depth(f) <= 1]
     fam.append((['I3'], core3i if thorough else core3i[::2]))
     fam.append((['F2'], core if thorough else core[::3]))
+    # formulas whose sub-formulas repeat (cache hits with renaming, siblings, the same shape at two depths): plain members
+    # of the families built for C04 / C10 / C15 -- the result must still be the semantics of the formula
+    from . import c04, c10
+    dup = [f for f in c04.triple_family() + c04.scope_family() + G.siblings(['v0', 'v1']) + c10.two_depths() if not (S.labels(f)[0] | S.labels(f)[1])]
+    fam.append((['U2'], dup if thorough else dup[::2]))
+    fam.append((['U2', 'W2'], G.unary_pairs(['v0', 'v1']) + G.swapped_duplicates()))
     UC.run_family(chk, 'C01', fam, entries=entries)
     # bounded-exhaustive small plain formulas (thorough: every formula with <= 4 nodes; quick: a seed-chosen sample incl. size 5)
     kw = dict(wild=(), doms=(None,), un=('not', 'EX', 'AX', 'EF', 'AG', 'EG', 'AF'), bins=('and', 'or', 'EU', 'AU'), props=('v0', 'v1'))
